@@ -72,6 +72,16 @@ def case(rng: Any, ctx: Ctx, index: int) -> None:
     if rng.integers(4) == 0:
         a, b = np.array(a), np.array(b)   # NumPy-array angles are accepted as well
         fa += '/numpy'
+    if rng.integers(10) == 0:
+        # complex Stokes data (the operators are linear over the complex numbers): only the applications under the reference models
+        cs = cls.structure_for(shape, np.complex64)
+        cx = jax.tree.map(lambda l: jnp.asarray(np.asarray(gen.dy(rng, l.shape, np.float32)) + 1j * np.asarray(gen.dy(rng, l.shape, np.float32)), dtype=jnp.complex64), cs)
+        ca = jnp.asarray(a, dtype=jnp.float32)
+        LOG.case_key(f'{kind}:{len(shape)}d:complex-data:{fa}', True)
+        LOG.count('C15.complex-data', kind)
+        for op in (QURotationOperator(ca, cs), QURotationOperator(ca, cs).T, HWPOperator(cs), LinearPolarizerOperator(cs)):
+            op.mv(cx)
+        return
     R, Rb, H, P = QURotationOperator(a, s), QURotationOperator(b, s), HWPOperator(s), LinearPolarizerOperator(s)
     x = gen.rand_input(rng, s)
     LOG.case_key(f'{kind}:{len(shape)}d:{fa}:{fb}', 'special' not in fa)
@@ -79,6 +89,17 @@ def case(rng: Any, ctx: Ctx, index: int) -> None:
     for op in (R, R.T, H, P):
         op.mv(x)
     M = {n: ref_matrix(o) for n, o in (('R', R), ('Rb', Rb), ('RT', R.T), ('RbT', Rb.T), ('H', H), ('P', P))}
+    # the matrix form of each operator (as_matrix, whichever implementation the class inherits) is its Mueller matrix too
+    def j_asmatrix() -> None:
+        if rng.integers(4):
+            return                       # (as_matrix compiles one program per operator: one operator in one case out of four)
+        for n, o in [(('R', R), ('RT', R.T), ('RT', R.T), ('H', H), ('P', P))[int(rng.integers(5))]]:
+            got = np.asarray(o.as_matrix(), dtype=np.float64)
+            LOG.evaluated('C15.identity')
+            ok, err = dense.close(M[n], got, tol * 4)
+            if not ok:
+                LOG.violation('C15', 'C15.identity', f'{type(o).__name__}.as_matrix/not-the-Mueller-matrix', f'rel err {err:.3g}', expr=dense.describe(o))
+    guarded('C15.identity', j_asmatrix)
     # Mueller sanity of the reference itself: R(a) R(-a) = I
     # 2. identities, before and after reduction
     ident = [
